@@ -55,19 +55,32 @@ func IsError(t types.Type) bool {
 }
 
 // Zero returns the zero value as a string, for a given type.
+// Struct and array types have no zero literal that can be written without their type name, use ZeroOf for those.
 func Zero(typ types.Type) string {
-	switch t := typ.(type) {
+	switch t := typ.Underlying().(type) {
 	case *types.Basic:
 		switch t.Kind() {
 		case types.String:
 			return `""`
 		case types.Bool:
 			return "false"
+		case types.UnsafePointer, types.UntypedNil:
+			return "nil"
 		default:
 			return "0"
 		}
 	}
 	return "nil"
+}
+
+// ZeroOf returns the zero value as a string, for a given type,
+// where typeString is used to print the type of a struct or array, whose zero value is a composite literal.
+func ZeroOf(typ types.Type, typeString func(types.Type) string) string {
+	switch typ.Underlying().(type) {
+	case *types.Struct, *types.Array:
+		return typeString(typ) + "{}"
+	}
+	return Zero(typ)
 }
 
 func IsComparable(tt types.Type) bool {
